@@ -602,7 +602,8 @@ func execRes(c px.Context, args []sx.Sexp, implOnly bool) core.Result {
 func dv(name string, xs ...sx.Sexp) sx.Sexp { return sx.T("d", append([]sx.Sexp{sx.Str(name)}, xs...)...) }
 func dtv(name string) sx.Sexp               { return sx.T("dt", sx.Str(name)) }
 
-// the scopes of the exhaustive universe: `v` a hash, an array, a scalar or missing; `k`, `j` keys into it
+// the scopes of the exhaustive universe: `v` a hash, an array, a scalar or missing; `k`, `j` keys into it (scalar,
+// out of range, undef, a Deferred)
 func resScopes() []sx.Sexp {
 	hval := hv(kv(sv("a"), iv(1)), kv(sv("b"), iv(2)), kv(iv(0), av(iv(7), iv(8))))
 	aval := av(iv(10), hv(kv(sv("a"), iv(11))), iv(30))
@@ -613,6 +614,8 @@ func resScopes() []sx.Sexp {
 		hv(kv(sv("v"), aval), kv(sv("k"), iv(5)), kv(sv("j"), sx.T("u"))),
 		hv(kv(sv("v"), iv(3)), kv(sv("k"), dv("$j")), kv(sv("j"), iv(2))),
 		hv(kv(sv("k"), sv("a"))),
+		// keys that cannot be hashed (a Deferred taken out of the scope as it is; an array holding one): INVALID_MAP_KEY
+		hv(kv(sv("v"), hval), kv(sv("k"), dv("$j")), kv(sv("j"), av(dv("$k")))),
 	}
 }
 
